@@ -88,33 +88,7 @@ def items(tier, seed):
                 yield (it, li, (i + k) % 2, ZERO[(i // 2 + k + seed) % 4])
 
 
-def with_zero_entry(spec_item, mode):
-    """Append a zero-probability entry to the first outcome distribution of the first state that is in
-    the initial support: pointing to an existing state (inside) or to a fresh extra state (outside)."""
-    tag, n, T, ab, init, g = spec_item
-    if mode == 'none':
-        return spec_item, None
-    if mode == 'zero_init':
-        # a zero-probability entry in the INITIAL distribution, for a fresh state nothing leads to: not part of the support
-        T2 = tuple(T) + ((('a', ((n, F(1)),), F(0)),),)
-        return ('mdp', n + 1, T2, ab, tuple(init) + ((n, F(0)),), g), n
-    s0 = min(s for s, p in init if p > 0)
-    if not T[s0]:
-        return spec_item, None
-    a, dist, rew = T[s0][0]
-    if mode == 'inside':
-        tgt = next((t for t in range(n) if t not in [ns for ns, _ in dist]), None)
-        if tgt is None:
-            return spec_item, None
-        n2, T2 = n, list(T)
-    else:
-        tgt = n
-        n2 = n + 1
-        T2 = list(T) + [(('a', ((n, F(1)),), F(0)),)]
-    new_dist = dist + ((tgt, F(0)),)
-    new_rew = (tuple(rew for _ in dist) if not isinstance(rew, tuple) else rew) + (F(-5),)
-    T2[s0] = ((a, new_dist, new_rew),) + tuple(T[s0][1:])
-    return ('mdp', n2, tuple(T2), ab, init, g), tgt
+with_zero_entry = build.with_zero_entry
 
 
 def check(item, tier):
